@@ -698,7 +698,7 @@ def run_search(case, method, seed_numpy=True, history=None):
   if history == 'shared-data':
     try:
       mm_b = tbrmatchedmarkets.TBRMatchedMarkets(mm.data, tbrmmdesignparameters.TBRMMDesignParameters(**other_kwargs(case.kwargs)))
-      if len(case.space.geos) % 2:
+      if len(case.space.geos) % 4 == 3:
         _ = mm_b.geo_assignments          # the other searcher is inspected before the measured one does anything
         mm_b.count_max_designs()
       getattr(mm, method)()
